@@ -925,6 +925,7 @@ class World:
         # conversion rewrites Parameter.data under a running backward otherwise)
         for inst in h.insts:
             inst.inflight += 1
+        cot_before = [raw_bytes(c) for c in cots]
         try:
             cg = bool(op.get("create_graph"))
             status, val = cl.guarded(
@@ -936,6 +937,10 @@ class World:
         if not retain:
             h.graph_alive = False
         self._finish(cl, rec, status, val)
+        # I1: the gradients handed to backward are the caller's tensors too
+        if any(raw_bytes(c) != b for c, b in zip(cots, cot_before)):
+            self.violation("I1-arg-mutated", rec, "backward changed a gradient tensor it was given")
+        self.live_args.append((rec, list(zip(cots, cot_before)), "values"))
         if status == "ok":
             rec["out_snap"] = snap(list(val))
             rec["out_digest"] = snap_digest(rec["out_snap"])
@@ -1338,7 +1343,23 @@ def build_pyramid(torch, fwd_family, outputs, op):
     return low, highs, leaves
 
 
-def select_backward(torch, outputs, leaves, op):
+def _cotangent(torch, rng, t, layout):
+    """Gradient handed to backward for output t.  `expand` is what
+    `t.sum().backward()` passes (a scalar broadcast with stride 0); the others
+    are ordinary non-contiguous tensors."""
+    shape = tuple(t.shape)
+    if layout == "expand":
+        return torch.from_numpy(rng.standard_normal(())).to(t.dtype).expand(shape)
+    if layout == "transposed" and len(shape) >= 2:
+        sh = shape[:-2] + (shape[-1], shape[-2])
+        return torch.from_numpy(rng.standard_normal(sh)).to(t.dtype).transpose(-1, -2)
+    if layout == "step" and len(shape) >= 1:
+        sh = shape[:-1] + (2 * shape[-1],)
+        return torch.from_numpy(rng.standard_normal(sh)).to(t.dtype)[..., ::2]
+    return torch.from_numpy(rng.standard_normal(shape)).to(t.dtype)
+
+
+def select_backward(torch, outputs, leaves, op, contiguous=False):
     outs = []
     for t in flat_tensors(outputs):
         try:
@@ -1368,7 +1389,10 @@ def select_backward(torch, outputs, leaves, op):
         if sub:
             inputs = sub
     rng = np.random.Generator(np.random.PCG64(op["seed"]))
-    cots = [torch.from_numpy(rng.standard_normal(tuple(t.shape))).to(t.dtype) for t in outs]
+    lay = op.get("cot_layout", "contig")
+    cots = [_cotangent(torch, rng, t, lay) for t in outs]
+    if contiguous:
+        cots = [c.contiguous() for c in cots]
     return outs, cots, inputs
 
 
